@@ -9,7 +9,8 @@ EXPL = ("R20.1 the counter-visit closure of readout reports the result of exactl
         "flow from Bucket::count() filtered by > 0. R20.3 the accumulator entry sets AllowSplitEntries before the first value and "
         "writes each item once under key_name(key) with key_labels(key) as dimensions and the described unit (default Unit::None); "
         "counters Unsigned, gauges Floating, buckets Repeated{value*count, count}. R20.4 register_* hands out the registry's shared "
-        "storage, describe_* records the unit under the metric name. R20.6 the described-units map a readout "
+        "storage, describe_* records the unit under the metric name. R20.7 the bridge histogram's drain reaches the atomic bucket sweep on every path "
+        "and keeps no separate flag next to the bucket counters. R20.6 the described-units map a readout "
         "carries is obtained after the three registry visits (never a snapshot the caller took before the walk). R20.5 (async body: call-site facts only) every append in the "
         "reporter task takes a fresh readout() and no readout result is discarded. Not decided: exactly-once under true races "
         "(atomic semantics, histogram crate).")
@@ -124,6 +125,15 @@ def run(ctx):
     for b in hd:
         inner = [c for c in b.calls() if c.name == "drain" and c.def_.startswith("histogram::")]
         ctx.check(len(inner) == 1 and "atomic" in inner[0].def_.lower(), "R20.2", fnkey(b) + "#uses-atomic-drain", loc(b), "bridge histogram is not read with AtomicHistogram::drain: %s" % [c.def_ for c in inner])
+        # R20.7 every readout sweeps the buckets: no path returns without the atomic drain (a "nothing recorded" short-cut decided by a
+        # separate flag races with a concurrent record and strands its sample)
+        ctx.check(bool(inner) and b.must_pass([c.bb for c in inner]), "R20.7", fnkey(b) + "#always-sweeps-the-buckets", loc(b),
+                  "the bridge histogram's drain can return without the atomic sweep of the buckets (an early return guarded by other state): a sample "
+                  "recorded concurrently with a readout can be left in a bucket that later readouts skip, so it is never reported",
+                  "the atomic drain is on every path to the exit")
+        flags = [c for c in b.calls() if c.def_.startswith("core::sync::atomic::Atomic") and c.name in ("store", "swap", "load", "compare_exchange", "fetch_or", "fetch_and")]
+        ctx.check(not flags, "R20.7", fnkey(b) + "#no-side-flag", loc(b, flags[0].bb if flags else None),
+                  "the drain consults or updates a separate atomic (%s) next to the bucket counters: the pair is not updated atomically with respect to record()" % [c.name for c in flags])
         cls = F.closures_of(b)
         filt = [cb for cb in cls if any(c.name == "count" for c in cb.calls()) and cb.locals[0]["ty"] == "bool"]
         mapc = [cb for cb in cls if cb.locals[0]["ty"].endswith("Bucket")]
